@@ -1,4 +1,4 @@
-import MgpuProofs.C11MSysX
+import MgpuProofs.C11MSysR
 import MgpuProofs.Props.C11Sys
 /-! # C11 — the closed copy system with several GPUs (`MgpuModel/C11MSys.lean`)
 
@@ -241,5 +241,125 @@ example : (reachMSys demoMCfg demoMOps).mq.s.completed = [(0, 0)] ∧
     (reachMSys demoMCfg demoMOps).lanes.map (fun l => (l.cp.answered, (l.reqOfDma 0).map (·.id))) =
       [([0], some 2), ([0], some 3)] := by decide +kernel
 
+
+/-- **Every page piece is handled by the GPU that owns its frame.** For every owner function, every
+    schedule: a transaction performed by the memory of GPU `g` belongs to a request `rq` of the one
+    driver whose page piece `p` has `own p.pa = g`; with `msys_transaction_in_piece` the transaction lies
+    inside `[p.pa, p.pa + p.len)`, a part of ONE page (`pieces_tile`) — so a copy whose range spans the
+    memories of several GPUs is cut at the page boundaries and every part is read / written in the
+    memory of the GPU holding that page, and nowhere else. Also: a flush request reaches the GPU it
+    names, and all lanes agree with the driver on the command list. -/
+theorem msys_routed_to_owner (c : MCfg) (ops : List MOp) :
+    let s := reachMSys c ops
+    ∀ g l, s.lanes[g]? = some l →
+      (∀ t ∈ l.mlog, ∃ (rq : MqReq) (p : Piece), l.reqOfDma t.owner = some rq ∧ l.pieceOf rq = some p ∧
+        s.pieceOf rq = some p ∧ s.own p.pa = g) ∧
+      (∀ rq ∈ l.mq.seen, rq.kind = .flush → rq.idx = g) ∧ l.cmds = s.cmds := by
+  intro s g l hl
+  have hR : s.RInv := MSys.RInv.run ops (MSys.RInv.init c)
+  have hI : s.Inv c := reachMSys_inv c ops
+  have hlm : l ∈ s.lanes := List.mem_of_getElem? hl
+  have hcm : l.cmds = s.cmds := (hR.same l hlm).1
+  have hpc : ∀ r, s.pieceOf r = l.pieceOf r := fun r =>
+    Sys.pieceOf_congr (s := l) (s' := { cmds := s.cmds }) hcm.symm r
+  refine ⟨?_, ?_, hcm⟩
+  · intro t ht
+    obtain ⟨rq, p, a1, a2, _, _⟩ := (hI.lanes l hlm).data.data t ht
+    have hseen : rq ∈ l.mq.seen := by
+      unfold Sys.reqOfDma at a1
+      split at a1
+      · cases a1
+      · exact List.mem_of_getElem? a1
+    have hroute := hR.route g l hl rq hseen
+    have hnf : rq.kind ≠ .flush := by
+      intro hk; unfold Sys.pieceOf at a2; rw [if_pos hk] at a2; cases a2
+    unfold MSys.route at hroute
+    rw [if_neg hnf, hpc, a2] at hroute
+    exact ⟨rq, p, a1, a2, (hpc rq).trans a2, hroute⟩
+  · intro rq hrq hk
+    have hroute := hR.route g l hl rq hrq
+    unfold MSys.route at hroute
+    rw [if_pos hk] at hroute
+    exact hroute
+
+/-- the demo: GPU 0's memory performed transactions only inside frame 65536 (which it owns), GPU 1's only
+    inside frame 131072 -/
+example : (reachMSys demoMCfg demoMOps).lanes.map (fun l => l.mlog.map (fun t => demoMCfg.own t.addr)) =
+    [[0, 0], [1, 1]] := by decide +kernel
+
+/-- **Frame, on every GPU: every write the copy path performs in ANY GPU's memory is a byte of a
+    host-to-device copy at the physical image of its place in the range — nothing else is ever written**
+    (`sys_writes_only_copy_bytes` for every lane): no device byte outside the image of a copied range
+    is changed in any memory, whatever the interleaving of queues, flushes, GPUs and concurrent copies. -/
+theorem msys_writes_only_copy_bytes (c0 : MCfg) (hinj : PtInj c0.sys.pt) (ops : List MOp) :
+    let s0 := reachMSys c0 ops
+    ∀ s ∈ s0.lanes, ∀ t ∈ s.mlog, t.write = true → ∃ (rq : MqReq) (p : Piece), s.reqOfDma t.owner = some rq ∧
+      s.pieceOf rq = some p ∧ p.cmd ∈ s.cmds ∧ p.cmd.kind = .h2d ∧ t.bytes.length = t.len ∧
+      ∀ j, j < t.len → ∃ i, i < p.cmd.len ∧ translate c0.sys.pt (p.cmd.addr + i) = some (t.addr + j) ∧
+        t.bytes[j]? = p.cmd.data[i]? := by
+  intro s0 s hs t ht hw
+  have h := (reachMSys_inv c0 ops).lanes s hs
+  generalize c0.sys = c at h hinj ⊢
+  obtain ⟨rq, p, x⟩ := h.tx_ctx hinj ht
+  obtain ⟨rq', p', a1, a2, a3, _⟩ := h.data.data t ht
+  have hp : p' = p := by
+    have : rq' = rq := Option.some.inj (a1.symm.trans x.req)
+    subst this
+    exact Option.some.inj (a2.symm.trans x.piece)
+  subst hp
+  have hkind : p'.cmd.kind = .h2d := by
+    have hd := x.dir
+    rw [hw] at hd
+    rcases h.wf.kind p'.cmd x.cmd_mem with hk | hk
+    · exact hk
+    · rw [hk] at hd; simp [mqKindToDma] at hd
+  have hdl := h.wf.data p'.cmd x.cmd_mem hkind
+  have hlo := x.lo
+  have hhi := x.hi
+  have hin := x.inside
+  have hbytes := a3 hw
+  have hoff : p'.off + (t.addr - p'.pa) + t.len ≤ p'.cmd.data.length := by omega
+  refine ⟨rq', p', a1, a2, x.cmd_mem, hkind, by rw [hbytes]; exact take_drop_len _ _ _ hoff, ?_⟩
+  intro j hj
+  refine ⟨p'.off + (t.addr - p'.pa) + j, by omega, ?_, ?_⟩
+  · have := x.tr ((t.addr - p'.pa) + j) (by omega)
+    rw [h.pt] at this
+    have e1 : p'.cmd.addr + (p'.off + (t.addr - p'.pa) + j) = p'.cmd.addr + p'.off + ((t.addr - p'.pa) + j) := by omega
+    have e2 : p'.pa + ((t.addr - p'.pa) + j) = t.addr + j := by omega
+    rw [e1, this, e2]
+  · rw [hbytes]; exact take_drop_getElem? _ _ _ _ hj hoff
+
+
+example : ∃ l ∈ (reachMSys demoMCfg demoMOps).lanes, ∃ t ∈ l.mlog, t.write = true := by decide +kernel
+
+/-- the moves of the one-GPU system as moves of the several-GPU system with one GPU -/
+def MOp.ofSys : SysOp → MOp
+  | .enq q h a l x => .enq q h a l x
+  | .drvTick => .drvTick
+  | .toCp => .toCp
+  | .toDrv => .toDrv 0
+  | op => .gpu 0 op
+
+/-- the several-GPU system `m` (one lane) and the one-GPU system `s` are in the same state: same driver
+    state (completions, requests created, answered, taken), same transactions in the same order, same
+    memory, same command-processor and DMA-engine logs -/
+def OneGpuAgrees (m : MSys) (s : Sys) : Prop :=
+  m.mq.s.completed = s.mq.s.completed ∧ m.mq.s.created = s.mq.s.created ∧ m.mq.s.answered = s.mq.s.answered ∧
+  m.mq.seen = s.mq.seen ∧
+  m.lanes.map (fun l => l.mlog.map (fun t => (t.id, t.addr, t.bytes))) = [s.mlog.map (fun t => (t.id, t.addr, t.bytes))] ∧
+  m.lanes.map (fun l => l.mlog.map (fun t => (t.write, t.len, t.owner))) = [s.mlog.map (fun t => (t.write, t.len, t.owner))] ∧
+  m.lanes.map (fun l => (l.mem.map (fun e => (e.1, e.2)), l.cp.answered, l.dma.drained, l.mq.seen)) =
+    [(s.mem.map (fun e => (e.1, e.2)), s.cp.answered, s.dma.drained, s.mq.seen)]
+
+instance (m : MSys) (s : Sys) : Decidable (OneGpuAgrees m s) := by unfold OneGpuAgrees; infer_instance
+
+/-- **With one GPU the several-GPU system replays the one-GPU system `Sys`** (the model the `c11 sys` lines
+    compare with the real driver + command processor + DMA engine) — kernel-checked on the one-GPU demo run. -/
+theorem msys_one_gpu_replays_sys_demo :
+    OneGpuAgrees (reachMSys { sys := demoSysCfg, nGpus := 1, own := fun _ => 0 } (demoSysOps.map MOp.ofSys))
+      (reachSys demoSysCfg demoSysOps) := by
+  decide +kernel
+
+example : (reachSys demoSysCfg demoSysOps).mlog.length = 4 := by decide +kernel
 
 end C11
